@@ -1,4 +1,6 @@
 """C04 - terminal state is restored on every exit path."""
+import vselftest
+from checks import selfmut
 import json
 
 
@@ -26,6 +28,12 @@ def main(c):
         c.cov["prefix_model_violated_as_expected"] = not ok
     td = c.drive(drv, "c04", replay=c.replay)
     rejects, _ = c.validate_traces(specs, "Modes_Trace.tla", "Modes_Trace.cfg", td)
+    if not c.replay:
+        c.cov["binding_selftest"] = vselftest.run(c, specs, "Modes_Trace.tla", "Modes_Trace.cfg", td, {r["scn"] for r in rejects}, [
+            ("alternate screen not left", selfmut.altscreen_left_on),
+            ("cursor left hidden", selfmut.cursor_left_hidden),
+            ("kitty keyboard flags not popped", selfmut.kitty_not_popped),
+        ])
     idx = c.load_index(td)
     c.count_distinct(idx)
     for s in list(idx.values())[:3]:
